@@ -524,6 +524,15 @@ class Program(object):
                 return r
         raise AnalysisError("anchor function %s vanished" % short)
 
+    def table_short(self, f):
+        """short name under which the reviewed tables know f: a private method that was moved to module level (and got its
+        name back from roles.py) is listed under its former class"""
+        for owner, now, cur, old in getattr(f.module, "restored_names", ()):
+            if old == f.name and now == "" and owner and f.cls is None:
+                m = f.module.name[len(PKG) + 1:] if f.module.name.startswith(PKG + ".") else f.module.name
+                return "%s.%s.%s" % (m, owner, old)
+        return f.short
+
     def has_func(self, short):
         qn = short if short.startswith(PKG + ".") else "%s.%s" % (PKG, short)
         return qn in self.functions
